@@ -18,6 +18,7 @@ EXPLANATION = (
     "decoded previous value; the validator accepts for every reserved key exactly the class the decoder reads (so setting the signer's own public key succeeds) and "
     "has no extra rejections; build() hands out a clone of the builder's pairs plus id and the signer's key; every Error variant is constructed only under its cause. "
     "Not decided: equality of whole maps along concrete histories (the write census shows only the named keys change)."
+    " Re-uses C05 TS/WRAP/BUILD (every commit and build stores the signer's public key last, validated first)."
 )
 TRUSTED = ["std BTreeMap::insert/remove return the displaced value"]
 ASSUMPTIONS = ["T-API oracle transcribed from the property statement, EIP-778 and EIP-7636"]
@@ -377,3 +378,15 @@ def cause_ok(ctx, f, an, bb, idx, s, var):
                 return True, ""
         return False, "not tied to a malformed-value test"
     return False, "unknown variant"
+
+
+_own_run = run
+
+
+def run(ctx, report):
+    _own_run(ctx, report)
+    from common import Only
+    from rules import c05
+    # "the builder's pairs plus id=v4 and the signer's public key", "an update re-keys": the typestate verdicts of C05
+    c05.run(ctx, Only(report, {"TS": "TS", "WRAP": "WRAP", "BUILD": "KEYED-BUILD"}))
+
